@@ -224,8 +224,22 @@ func (m *Manager) registerConnection(conn *Connection) {
 func (m *Manager) handleDisconnect(conn *Connection, err error) {
 	m.mu.Lock()
 	// Remove from peers map if this is still the active connection
-	if existing, ok := m.peers[conn.RemoteID]; ok && existing == conn {
+	existing, ok := m.peers[conn.RemoteID]
+	if ok && existing == conn {
 		delete(m.peers, conn.RemoteID)
+	}
+
+	// Both the keepalive loop and the read loop report the teardown of the
+	// same connection, and the report of an old connection can arrive after
+	// the peer has already registered a new one. The disconnect callback
+	// cleans up routes and relays by peer ID, so it must run at most once per
+	// connection and never for a connection that has been replaced: it would
+	// wipe the state of the live connection.
+	stale := conn.disconnectHandled || (ok && existing != conn)
+	conn.disconnectHandled = true
+	if stale {
+		m.mu.Unlock()
+		return
 	}
 
 	// Find the peer info using the config address (original dial address).
